@@ -25,6 +25,8 @@ Record uobs := {
   uo_field : string;          (* FieldNameFromError *)
   uo_unchanged : bool;        (* the input compares equal to a deep copy taken before the call *)
   uo_stable : bool;           (* six more unmarshalings of the same input gave the same outcome and observable state *)
+  uo_stable_m : bool;         (* the same with heap addresses inside messages masked (a degraded cause with an empty
+                                 message prints one: finding K4, which belongs to C09 / C12) *)
   uo_res : option orerr
 }.
 
@@ -141,7 +143,7 @@ Definition corr (c : case) : bool :=
      distinct Define calls, so errors.Is answers exactly the class (C01) *)
   (* ... and so is everything observable of the result: repeated unmarshalings and typed lookups through every
      key leave it as it was *)
-  uo_unchanged o && uo_stable o && list_eqb Bool.eqb (uo_is o) (map (str_eqb (uo_class o)) classes) &&
+  uo_unchanged o && uo_stable_m o && list_eqb Bool.eqb (uo_is o) (map (str_eqb (uo_class o)) classes) &&
   match model_res c with
   | UOk e => str_eqb (uo_class o) "ok" &&
              match uo_res o with Some oe => orerr_eqb oe (orerr_of e) | None => false end
